@@ -264,7 +264,10 @@ func (h *Handler) SendMessageElement(ctx context.Context, s *xmpp.Session, paylo
 		msg.ID = attr.RandomID()
 	}
 
-	c := make(chan struct{})
+	// The channel has room for the one notification it can ever get (the entry
+	// is removed under the lock before the handler sends), so the handler never
+	// blocks on a requester that has given up, and nobody needs to close it.
+	c := make(chan struct{}, 1)
 	h.m.Lock()
 	h.sent[msg.ID] = c
 	h.m.Unlock()
@@ -275,6 +278,9 @@ func (h *Handler) SendMessageElement(ctx context.Context, s *xmpp.Session, paylo
 	}
 	err := s.SendElement(ctx, r, msg.StartElement())
 	if err != nil {
+		h.m.Lock()
+		delete(h.sent, msg.ID)
+		h.m.Unlock()
 		return err
 	}
 
@@ -285,7 +291,6 @@ func (h *Handler) SendMessageElement(ctx context.Context, s *xmpp.Session, paylo
 		h.m.Lock()
 		delete(h.sent, msg.ID)
 		h.m.Unlock()
-		close(c)
 		return ctx.Err()
 	}
 }
